@@ -1,9 +1,11 @@
 pub mod c01;
 pub mod c02;
 pub mod c03;
+pub mod c04;
 pub mod c05;
 pub mod c06;
 pub mod c07;
+pub mod c08;
 pub mod c09;
 pub mod c10;
 
@@ -22,9 +24,11 @@ pub fn run(id: &str, rep: &mut Report) -> bool {
         "C01" => c01::run(rep),
         "C02" => c02::run(rep),
         "C03" => c03::run(rep),
+        "C04" => c04::run(rep),
         "C05" => c05::run(rep),
         "C06" => c06::run(rep),
         "C07" => c07::run(rep),
+        "C08" => c08::run(rep),
         "C09" => c09::run(rep),
         "C10" => c10::run(rep),
         _ => return false,
